@@ -72,6 +72,9 @@ async def _open_tcp_server_transport_impl(**kwargs) -> Transport:
         def connection_made(self, transport):
             peer_name = transport.get_extra_info('peer_name')
             logger.debug(f'connection from {peer_name}')
+            # The parser is shared by all connections: the previous client may
+            # have been disconnected in the middle of a packet.
+            self.packet_source.parser.reset()
             self.packet_sink.transport = transport
 
         # Called when the client is disconnected
